@@ -588,7 +588,7 @@ STREAMS.update({'bindcall': bindcall, 'callsig': callsig, 'makeup': makeup, 'pok
 # ----------------------------------------------------------------------------- functools.partial (C19)
 def partial_(tier, seed, ci, nc):
     """real functools.partial objects: U x (count, names) bindings; names in every order, incl. foreign
-    and positional-only names"""
+    and positional-only names and the names of *args / **kwargs themselves (finding D51)"""
     univ = U('abc', 2) if tier == 'quick' else U('abc', 3)
 
     def gen():
@@ -596,7 +596,7 @@ def partial_(tier, seed, ci, nc):
             ps = _dist_defaults(ps)
             npos = sum(1 for p in ps if p[1] in ('po', 'pk'))
             for n in range(npos + 2):
-                for nm in mask_names_space(ps, include_po=True):
+                for nm in mask_names_space(ps, include_po=True, include_stars=True):
                     if len(nm) > (2 if tier == 'quick' else 3):
                         continue
                     yield ('partialsig', n, tuple((k, 5 + i) for i, k in enumerate(nm)), ps)
